@@ -683,6 +683,34 @@ pub fn run_case(rng: &mut Rng, sc: &Scenario, cfg: &RunCfg, model: &mut Model, r
             }
         }
     }
+    // After a divergence the model's open-file state cannot be trusted for `fsck live`: run the
+    // history again with the crash variant (no pending state, sizes not required to be current),
+    // which depends on the implementation's medium only, from the diverging step on.
+    if diverged && lines.iter().any(|l| l.req == "fsck live") {
+        let reqs2: Vec<String> = lines.iter().map(|l| if l.req == "fsck live" { "fsck crash".to_string() } else { l.req.clone() }).collect();
+        let resp2 = model.batch(&reqs2);
+        let mut past = false;
+        let mut reported = false;
+        for (l, got) in lines.iter().zip(resp2.iter()) {
+            if let Expect::Op(want) = &l.expect {
+                let g = if cfg.compare_reads { got.clone() } else { strip_reads(got) };
+                if &g != want {
+                    past = true;
+                }
+            }
+            if past && l.req == "fsck live" && !reported {
+                if let Expect::OraclePrefix(prefix, what) = &l.expect {
+                    rep.oracle_checks += 1;
+                    if !got.starts_with(prefix.as_str()) {
+                        reported = true;
+                        let clause = got.split(' ').nth(1).unwrap_or("?").split(':').next().unwrap_or("?").to_string();
+                        rep.violation("impl-vs-spec", &format!("fsck:{}:{}", clause, what.split(':').last().unwrap_or("")), &format!("step {} ({}): specification verdict (crash variant: medium only) on the implementation's medium: {}", l.step, what, truncate(got, 300)),
+                            replay_of(&ops, &outcomes, l.step, sc, J::obj(vec![("oracle", J::s("fsck crash")), ("verdict", J::s(truncate(got, 600))), ("context", J::s(what.clone()))])));
+                    }
+                }
+            }
+        }
+    }
     if rep.samples.len() < 3 {
         rep.sample(J::obj(vec![("scenario", J::s(sc.desc.clone())), ("limits", J::s(format!("{:?}", sc.limits))), ("ops", J::Arr(ops.iter().take(25).zip(outcomes.iter()).map(|(o, r)| J::s(format!("{} => {}", o.show(), truncate(&r.res, 40)))).collect()))]));
     }
@@ -825,9 +853,13 @@ pub fn c02(ctx: &Ctx) -> Report {
     for k in 0..n {
         let o = ScOpts { fat32: Some(k % 3 == 0), multi_volume: k % 7 == 6, full_dir: k % 4 == 1, bpc_choices: vec![1, 1, 2, 4], ..Default::default() };
         let sc = make_scenario(&mut rng, &o);
-        let mut cfg = RunCfg::base(budget(ctx, 45, 70), Profile::namespace());
-        cfg.profile.w_write = 10;
-        cfg.quiesce_every = 15;
+        // alternate: namespace-heavy histories with frequent quiescent points, and data-heavy ones
+        // (seeks back and forth, appends across cluster boundaries) with rarer ones
+        let mut cfg = RunCfg::base(budget(ctx, 45, 70), if k % 2 == 0 { Profile::namespace() } else { Profile::rw() });
+        if k % 2 == 0 {
+            cfg.profile.w_write = 10;
+        }
+        cfg.quiesce_every = if k % 2 == 0 { 15 } else { 30 };
         cfg.tree_at_quiescent = true;
         cfg.remount_at_quiescent = true;
         run_case(&mut rng, &sc, &cfg, &mut model, &mut rep, &format!("c02/{}/{k}", ctx.seed));
